@@ -210,6 +210,10 @@ def marshalSeq (pol : PadPolicy) (next : Nat × Bool → HelloFields → List Ex
   | _, [] => []
   | c, (f, xs) :: r => marshalNoECH f pol (xs.map (setPad c)) :: marshalSeq pol next (next c f xs) r
 
+/-- `append(exts[:i], append([]TLSExtension{e}, exts[i:]...)...)`: what `processHelloRetryRequest` does
+with the server's cookie (`i` drawn below `len-2`). -/
+def insertAt (i : Nat) (e : Ext) (xs : List Ext) : List Ext := xs.take i ++ e :: xs.drop i
+
 /-- the bytes an extension contributes to a ClientHello (nothing when `Read` bails out). -/
 def emit (e : Ext) : Bytes :=
   match Ext.read e (need e) with
